@@ -127,6 +127,8 @@ thread_local! {
 	static LAST_PANIC: RefCell<Option<String>> = const { RefCell::new(None) };
 }
 
+pub static LAST_PANIC_GLOBAL: std::sync::Mutex<Option<String>> = std::sync::Mutex::new(None);
+
 /// Installs a silent panic hook that records message and location per thread.
 pub fn install_panic_hook() {
 	panic::set_hook(Box::new(|info| {
@@ -138,6 +140,9 @@ pub fn install_panic_hook() {
 			"<non-string panic payload>".to_owned()
 		};
 		let loc = info.location().map(|l| format!(" at {}:{}", l.file(), l.line())).unwrap_or_default();
+		if let Ok(mut g) = LAST_PANIC_GLOBAL.lock() {
+			*g = Some(format!("{msg}{loc}"));
+		}
 		let _ = LAST_PANIC.try_with(|p| *p.borrow_mut() = Some(format!("{msg}{loc}")));
 	}));
 }
